@@ -225,6 +225,18 @@ static void build_ops(void)
 			e.typed = "a\x01";
 			add(e, "%ca\x16\x01" ESC, *c);
 		}
+		/* ^W erases one word: characters of one kind, not back to the previous blank */
+		memset(&e, 0, sizeof(e));
+		e.kind = E_INS;
+		for (c = "aI"; *c; c++) {
+			e.ins = *c;
+			e.typed = "foo(";
+			add(e, "%cfoo(bar\x17" ESC, *c);
+			e.typed = "ab";
+			add(e, "%cab..\x17" ESC, *c);
+			e.typed = "x.";
+			add(e, "%cx.y_1\x17" ESC, *c);
+		}
 		/* erasing multi-byte characters of every length (C16: the line stays valid UTF-8) */
 		memset(&e, 0, sizeof(e));
 		e.kind = E_INS;
